@@ -91,7 +91,7 @@ fn async_mirror(cfg: &RunCfg, out: &mut RunOut) -> Option<(String, String, usize
     let ab = abuild(&cfg.specs[0], crate::rng::mix(cfg.order_seed, 0), cfg.permute, crate::rng::mix(cfg.seed, 0xC12A), 20).ok()?;
     out.count("probe.c12.async_runs");
     let shape = format!("{}/async", cfg.specs[0].shape());
-    let mut ax = AExec { root: ab.root.clone(), slots: Default::default() };
+    let mut ax = AExec { root: ab.root.clone(), slots: Default::default(), others: vec![] };
     let mut world = World { m: vec![cfg.specs[0].view()], w: Default::default() };
     for (idx, op) in cfg.ops.iter().enumerate() {
         let i = idx + 1;
